@@ -307,6 +307,13 @@ def t_extra_sheet(wb):
     w2["zzzunrelated"] = [{"a": "1"}]
     w2["sheet_names"] = [*sheets(wb), "zzzunrelated"]
     yield "sheet:unrelated", w2, {}
+    # unrelated / underscore sheets are ignored whatever they hold: repeated headers, a header row only, nothing but a name cell
+    for nm, tbl in (("_lookup", [["key", "value", "key"], ["a", "1", "b"]]), ("zzzscratch", [["only", "headers"]]),
+                    ("_dups", [["type", "type", "name"], ["x", "y", "z"]]), ("zzzwide", [["a"], ["1", "2", "3"]])):
+        w3 = copy.deepcopy(wb)
+        w3[nm] = {"__table__": tbl}
+        w3["sheet_names"] = [*sheets(wb), nm]
+        yield f"sheet:odd:{nm}", w3, {}
 
 
 def t_unknown_col(wb):
@@ -441,14 +448,56 @@ def check_one(case):
     if w2 is None:
         return {"outcome": "not-applicable", "nt": False, "viol": [], "tr": 1}
     a = run_convert(with_sheet_names(wb))
-    if any(s not in KNOWN_SHEETS for s in sheets(w2)):
-        # unknown sheets only exist in files (the dict API has no place for them): go through the xlsx reader
-        src, kw = render.render({k: v for k, v in w2.items() if k != "sheet_names"}, "xlsx")
-        b = run_convert(src, **kw)
-    else:
-        b = run_convert(with_sheet_names(w2))
     ntr = 2 * sum(len(v) for k, v in wb.items() if isinstance(v, list))
     tname = "+".join(TRANSFORMS[ti].__name__[2:] + ":" + site.split(":")[0] for ti, site in case["t"])
+    if any(s not in KNOWN_SHEETS for s in sheets(w2)):
+        # unknown sheets only exist in files (the dict API has no place for them): go through the readers
+        wfile = {k: v for k, v in w2.items() if k != "sheet_names"}
+        tables = {}
+        for sname in [k for k in wfile if not k.endswith("_header") and k != "fallback_form_name"]:
+            v = wfile[sname]
+            tables[sname] = [list(r) for r in v["__table__"]] if isinstance(v, dict) else [list(r) for r in render.table(wfile, sname)]
+        res = None
+        for fmt in ("xlsx", "md", "csv"):
+            if fmt == "xlsx":
+                plain = {k: (v if not isinstance(v, dict) else []) for k, v in wfile.items()}
+                src, kw = render.render(plain, "xlsx", tables)
+            else:
+                flat = [c for t in tables.values() for r in t for c in r if c is not None]
+                if fmt == "md" and any((not isinstance(c, str)) or c != c.strip() or "\n" in c or "|" in c or "\\" in c or c == "" or "#" in c for c in flat):
+                    continue
+                src, kw = tables_to_text(tables, fmt)
+            r1 = compare_sides(case, a, run_convert(src, **kw), shifts, f"{tname}:{fmt}" if fmt != "xlsx" else tname, ntr)
+            if res is None or r1["viol"]:
+                res = r1
+            if r1["viol"]:
+                break
+        return res
+    b = run_convert(with_sheet_names(w2))
+    return compare_sides(case, a, b, shifts, tname, ntr)
+
+
+def tables_to_text(tables, fmt):
+    if fmt == "md":
+        lines = []
+        for sh, rows in tables.items():
+            lines.append(f"| {sh} |")
+            for row in rows:
+                lines.append("| | " + " | ".join("" if v is None else str(v) for v in row) + " |")
+        return "\n".join(lines) + "\n", {"file_type": ".md"}
+    import csv
+    import io
+
+    f = io.StringIO(newline="")
+    w = csv.writer(f, quoting=csv.QUOTE_ALL)
+    for sh, rows in tables.items():
+        w.writerow([sh])
+        for row in rows:
+            w.writerow(["", *["" if v is None else str(v) for v in row]])
+    return f.getvalue(), {"file_type": ".csv"}
+
+
+def compare_sides(case, a, b, shifts, tname, ntr):
     if a.kind != b.kind:
         return {"outcome": "different", "nt": False, "viol": [(f"outcome-changed:{tname}", f"{a.kind} -> {b.kind} {(b.msg or '')[:160]} sites={case['t']}")], "tr": ntr}
     if a.kind != "ok":
